@@ -1167,7 +1167,17 @@ class FunctionAnalysis:
     def _follow(self, av: AV, path: Tuple[str, ...]) -> List[Origin]:
         if not path:
             return list(av.is_)
-        outs = [o.ext(*path) for o in av.is_]
+        outs = []
+        cur = getattr(self, "_cur_env", None) or getattr(self, "env", None)
+        heap = cur.heap if cur is not None else {}
+        for o in av.is_:
+            # an attribute of an object built in this function (a helper object constructed from the caller's data): the
+            # heap knows what the attribute holds — the path continues on those objects, not on a name of the site
+            hv = heap.get((o, path[0][1:])) if (path[0].startswith(".") and o.root.startswith("obj:")) else None
+            if hv is not None:
+                outs += self._follow(hv, path[1:])
+            else:
+                outs.append(o.ext(*path))
         if path[0] == "*" and av.elem is not None:
             outs += self._follow(av.elem, path[1:])
         return outs
@@ -1203,6 +1213,7 @@ class FunctionAnalysis:
 
     def apply_summary(self, s: Summary, fi: FunctionInfo, pos, kwargs, n, env, star=(), self_origin=None) -> AV:
         binding = self.bind(fi, pos, kwargs, star)
+        self._cur_env = env
         site = f"{self.fi.qualname}@{self.fi.loc(n)}→{fi.qualname}"
         for ev in s.events:
             if ev.kind == "globalstore" or not ev.origin.is_arg:
